@@ -715,19 +715,18 @@ def check_flush(ctx):
     if cp is None or fl is None:
         raise AnalysisError("flush/commit_protosubroutine not found")
     ctx.fn("BaseNetQASMConnection.commit_protosubroutine")
-    order = []
-    for i, st in enumerate(cp.body):
-        for c in A.calls_in(st):
-            n = A.call_name(c)
-            if n in ("subrt_compile_subroutine", "instantiate", "commit_subroutine", "_reset"):
-                order.append(n)
-    ctx.check("C05.P", "commit_protosubroutine:compile-instantiate-send-reset", order == ["subrt_compile_subroutine", "instantiate", "commit_subroutine", "_reset"], f"commit order is {order}", conn.loc(cp), sample={"order": order})
-    calls = [A.call_name(c) for st in fl.body for c in A.calls_in(st) if A.call_name(c) in ("subrt_pop_pending_subroutine", "commit_protosubroutine")]
-    ctx.check("C05.P", "flush:pop-then-commit", calls == ["subrt_pop_pending_subroutine", "commit_protosubroutine"], f"flush does {calls}", conn.loc(fl))
+    ctx.fn("BaseNetQASMConnection.flush")
+    # executed against a recording builder (nqsa/pipeline.py): flush pops, compiles the popped proto-subroutine, instantiates it with the
+    # application id, sends that subroutine with the caller's block / callback, and resets the builder afterwards
+    from .. import pipeline
+    try:
+        pr = pipeline.run_pipeline(ctx)
+        ctx.check("C05.P", "commit_protosubroutine:compile-instantiate-send-reset", pr["flush"] is None and pr["reset-after-send"] is None, f"{pr['flush'] or pr['reset-after-send']}", conn.loc(cp))
+        ctx.check("C05.P", "flush:pop-then-commit", pr["flush"] is None and pr["flush-empty"] is None, f"{pr['flush'] or pr['flush-empty']}", conn.loc(fl))
+        ctx.check("C05.P", "subrt_compile_subroutine:assemble-then-transpile", pr["convert"] is None, f"{pr['convert']}", repo.get_class(B, "Builder").loc(), trivial=True)
+    except AnalysisError as ex_:
+        ctx.error("C05.P", f"the flush pipeline cannot be evaluated: {ex_}")
     b = repo.get_class(B, "Builder")
-    cs = b.methods.get("subrt_compile_subroutine")
-    order = [A.call_name(c) for st in cs.body for c in A.calls_in(st) if A.call_name(c) in ("assemble_subroutine", "transpile")]
-    ctx.check("C05.P", "subrt_compile_subroutine:assemble-then-transpile", order == ["assemble_subroutine", "transpile"], f"compile order is {order}", b.loc(cs), trivial=True)
     pp = b.methods.get("subrt_pop_pending_subroutine")
     order = [A.call_name(c) for st in pp.body for c in A.calls_in(st) if A.call_name(c) in ("_build_cmds_allocated_arrays", "_build_cmds_return_registers", "subrt_pop_all_pending_commands")]
     ctx.check("C05.P", "subrt_pop_pending_subroutine:declare-arrays-return-registers-then-pop", order == ["_build_cmds_allocated_arrays", "_build_cmds_return_registers", "subrt_pop_all_pending_commands"], f"pop order is {order}", b.loc(pp), trivial=True)
